@@ -474,6 +474,10 @@ Type help or ? to list commands.
             print(f'Cannot set breakpoint: {err}')
             return
 
+        if bp in self.cpu.breakpoints:
+            print(f'There is already a breakpoint at {bp}')
+            return
+
         print(f'Setting a breakpoint at {bp}')
         self.cpu.add_breakpoint(bp)
 
